@@ -469,7 +469,39 @@ def gen_files(tier):
     return out
 
 
-BUILDERS = {"atom": build_atom, "shape": build_shape, "lookalike": build_lookalike, "files": build_files}
+# ---- space (f): INCLUDE is transparent ---------------------------------------------------------------
+def build_inc(case):
+    """two modules in two directories; the specification part of each is moved into an include file of the
+    same name (`decls.inc`) beside its source file (see run_case)."""
+    _, _, k1, k2 = case
+    sfs = []
+    for idx, (k, mname) in enumerate(((k1, "ma"), (k2, "mb")), 1):
+        items = [VarItem(Var(f"dp{idx}", "integer", ["parameter"], initial="8")), spec_alphabet(idx)[k](), VarItem(Var(f"tail{idx}", "real"))]
+        procs = [proc_alphabet(idx)["sub"]()]
+        sfs.append(SourceFile(f"{mname}.f90", [Unit("module", mname, items=items, procs=procs)]))
+    return sfs
+
+
+def to_include(text):
+    """move the lines between the module statement (+ implicit none) and CONTAINS into an include file"""
+    L = text.rstrip("\n").split("\n")
+    start = 1
+    for i, l in enumerate(L):
+        if l.strip().lower() == "implicit none":
+            start = i + 1
+            break
+    end = next(i for i, l in enumerate(L) if l.strip().lower() == "contains")
+    return "\n".join(L[:start] + ["  include 'decls.inc'"] + L[end:]) + "\n", "\n".join(L[start:end]) + "\n"
+
+
+def gen_inc(tier):
+    ks = [k for k in SPEC_KEYS if k not in ("generic-modproc", "operator", "assignment", "fulltype")]
+    for mode in ("two-dirs", "one-dir-one-incdir", "inline"):
+        for k1, k2 in itertools.product(ks, ks):
+            yield (("inc", mode, k1, k2), 0 if tier == "quick" else 1)
+
+
+BUILDERS = {"inc": build_inc, "atom": build_atom, "shape": build_shape, "lookalike": build_lookalike, "files": build_files}
 IGNORE_FIELDS = ()
 
 
@@ -481,6 +513,20 @@ def run_case(st: Stats, case, bound):
     def run(ch):
         sf = builder(case)
         style = Style(ch)
+        if case[0] == "inc":
+            files, want = {}, []
+            for d, one in zip(("a", "b"), sf):
+                text = one.text(style)
+                want += one.records()
+                if case[1] == "inline":
+                    files[f"src/{d}/{one.name}"] = text
+                    continue
+                main, inc = to_include(text)
+                files[f"src/{d}/{one.name}"] = main
+                # both include files carry the same name; the second one lives beside its source or in the include directory
+                files[f"src/{d}/decls.inc" if (case[1] == "two-dirs" or d == "a") else "inc/decls.inc"] = inc
+            r = fordrun.build_fast(files, dict(DISPLAY_ALL, include=["inc"]))
+            return sf, "\n".join(f"----- {k}\n{v}" for k, v in sorted(files.items())), want, r
         text = sf.text(style)
         want = sf.records()
         if case[0] == "atom":
@@ -526,7 +572,7 @@ def work(chunk):
 
 def all_cases(tier):
     b = 1 if tier == "quick" else 2
-    return [(c, b) for c in itertools.chain(gen_atoms(tier), gen_twolit(tier))] + gen_shapes(tier) + [(c, 1) for c in gen_lookalikes(tier)] + gen_files(tier)
+    return [(c, b) for c in itertools.chain(gen_atoms(tier), gen_twolit(tier))] + gen_shapes(tier) + [(c, 1) for c in gen_lookalikes(tier)] + gen_files(tier) + list(gen_inc(tier))
 
 
 def replay(path):
